@@ -8,6 +8,7 @@ pub mod middle;
 pub mod c11;
 pub mod matrix;
 pub mod loops;
+pub mod directed13;
 pub mod c14;
 pub mod c15;
 pub mod c16;
